@@ -1062,7 +1062,7 @@ func main() {
 		rep.Distribution["corpus_histories"] = len(histories)
 		n, maxOps := 140, 8
 		if f.Thorough() {
-			n, maxOps = 5000, 14
+			n, maxOps = 3000, 14
 		}
 		g := newGen(hx.NewRand(f.Seed), rep)
 		for i := 0; i < n; i++ {
